@@ -732,7 +732,7 @@ HIST_ASSUME = [
 PLANS.update({
     'C09': {
         'quick': [A_history('h3', 3, 1, 'small', rworkers=1), A_history('h2f', 2, 1, 'full', rworkers=1)],
-        'thorough': [A_history('h4', 4, 1, 'small', rworkers=1, timeout=9000), A_history('h3f', 3, 1, 'full', rworkers=1, timeout=9000)],
+        'thorough': [A_history('h4', 4, 1, 'small', rworkers=1, timeout=9000), A_history('h2f', 2, 1, 'full', rworkers=1, timeout=9000)],
         'rule': 'TLC enumerates ALL histories of the stated length over the call universe (any order, any multiplicity, failing and malformed '
                 'calls in between) and assigns to every call the result its arguments determine (PatchOps/Merge7396/Equal); the replayer runs '
                 'every history in ONE process and one goroutine without resetting anything, over the same buffers and the same decoded Patch '
@@ -746,7 +746,7 @@ PLANS.update({
     },
     'C10': {
         'quick': [A_history('c2x3', 3, 2, 'small', race=True)],
-        'thorough': [A_history('c3x3', 3, 3, 'small', race=True, timeout=9000), A_history('c2x4', 4, 2, 'small', race=True, timeout=9000),
+        'thorough': [A_history('c3x3', 3, 3, 'small', race=True, timeout=9000), A_history('c4x3', 3, 4, 'small', race=True, timeout=9000),
                      A_history('c2x2f', 2, 2, 'full', race=True, timeout=9000)],
         'rule': 'TLC enumerates every assignment of calls to 2 (quick) / 3 processes and every interleaving at call granularity (the contract '
                 'makes each call one atomic step); for every such line the replayer starts one goroutine per process, free-running, over the '
